@@ -424,7 +424,34 @@ func (w *world) peerReader(data []byte, pol int) (io.Reader, func() int) {
 	return rd, func() int { return rd.calls }
 }
 
+// spare gives an argument buffer spare capacity filled with a canary (in half of the cases):
+// what lies between len and cap of a slice the caller passes belongs to the caller too.
+func (w *world) spare(b []byte) []byte {
+	if w.c.EnvSeed&1 == 0 {
+		return b
+	}
+	k := 16 + int(w.c.EnvSeed>>1)%33
+	buf := make([]byte, len(b)+k)
+	copy(buf, b)
+	for i := len(b); i < len(buf); i++ {
+		buf[i] = 0xC5
+	}
+	return buf[:len(b)]
+}
+
+func canaryIntact(b []byte) bool {
+	for _, x := range b[len(b):cap(b)] {
+		if x != 0xC5 {
+			return false
+		}
+	}
+	return true
+}
+
 func (w *world) inputsIntact(p0, s0, a0 []byte, site string) *sim.Violation {
+	if !canaryIntact(w.plain) || !canaryIntact(w.secret) || !canaryIntact(w.aad) {
+		return viol("input_modified", site, "the call wrote into the spare capacity (between len and cap) of its plaintext, secret or additional data argument")
+	}
 	if !bytes.Equal(p0, w.plain) || !bytes.Equal(s0, w.secret) || !bytes.Equal(a0, w.aad) {
 		return viol("input_modified", site, "the call modified its plaintext, secret or additional data argument")
 	}
@@ -435,9 +462,9 @@ func exec(c *sim.Case, out *sim.WorkerOut) (*sim.Violation, bool) {
 	core.EnvSeed(c.EnvSeed ^ 0x5eed) // the entropy bytes of this case depend on the case alone (replayable)
 	w := &world{c: c, out: out, dg: engc.NewDigest(), r: sim.NewRng(c.EnvSeed), stats: map[string]int{}}
 	p := c.Params
-	w.plain = w.r.Bytes(p["plen"])
-	w.secret = w.r.Bytes(p["slen"])
-	w.aad = w.r.Bytes(p["alen"])
+	w.plain = w.spare(w.r.Bytes(p["plen"]))
+	w.secret = w.spare(w.r.Bytes(p["slen"]))
+	w.aad = w.spare(w.r.Bytes(p["alen"]))
 	if w.r.Pct(30) { // printable secrets as a user would type them
 		for i := range w.secret {
 			w.secret[i] = "abcXYZ019 _-"[int(w.secret[i])%12]
